@@ -7,7 +7,7 @@ import z3
 
 from pyvc import sym, world
 from pyvc.sym import (KBool, KInt, KStr, KVal, KList, KDict, KSet, KTuple, KOpt,
-                      KRecord, VObj, VInt, VBool, VStr)
+                      KRecord, KPath, VObj, VInt, VBool, VStr)
 
 Key2 = KTuple(KStr, KStr)              # (scope string, selector)
 ParamDict = KDict(KStr, KVal)          # parameter name -> value
@@ -18,12 +18,31 @@ ScopeStack = KList(ScopeList)
 ScopeManager = KRecord('_ScopeManager',
                        {'_active_scopes': KOpt(ScopeStack)}, mutable=True)
 
-# Abstract view of a SelectorMap as seen by code in config.py (the concrete
-# suffix tree is verified separately in selector_map.py, see c_selector_map.py):
-#   dom/val : the complete selectors stored and their values.
-SelectorMapAbs = KRecord('SelectorMapAbs',
-                         {'dom': KSet(KStr), 'val': KDict(KStr, KVal)},
-                         mutable=True)
+# A SelectorMap: `_selector_map` (complete selector -> value) and the suffix tree,
+# viewed as two predicates over paths (components innermost first): alive(pi) -- a
+# dict object exists at pi; term(pi) -- that dict has the '$' key.  Code in
+# config.py only ever sees the map through the method contracts.
+SelTree = KRecord('SelTree', {'alive': KSet(KPath), 'term': KSet(KPath)},
+                  mutable=True)
+StrValDict = KDict(KStr, KVal)
+SelectorMap = KRecord('SelectorMap',
+                      {'_selector_map': StrValDict, '_selector_tree': SelTree},
+                      mutable=True)
+
+StrList = KList(KStr)
+ParsedBindingKey = KRecord('ParsedBindingKey', {
+    'scope': KStr, 'given_selector': KStr, 'complete_selector': KStr,
+    'arg_name': KStr})
+ParsedBindingKey.tuple_order = ['scope', 'given_selector', 'complete_selector',
+                                'arg_name']
+Configurable = KRecord('Configurable', {
+    'wrapper': KVal, 'wrapped': KVal, 'name': KStr, 'module': KOpt(KStr),
+    'import_source': KVal, 'allowlist': KOpt(StrList), 'denylist': KOpt(StrList),
+    'selector': KStr, 'is_method': KBool})
+Configurable.tuple_order = ['wrapper', 'wrapped', 'name', 'module',
+                            'import_source', 'allowlist', 'denylist', 'selector',
+                            'is_method']
+Configurable.defaults = {'is_method': lambda ex: VBool(False)}
 
 Location = KVal   # locations are opaque to everything verified here
 
@@ -42,7 +61,11 @@ world.STATE.update({
     '_LOCATION_PREFIXES': KList(KStr),
     '_PARSE_CONTEXTS': KList(KVal),
     '_RENAMED_SELECTORS': KDict(KStr, KStr),
-    '_CONSTANTS': KDict(KStr, KVal),
+    '_CONSTANTS': SelectorMap,
+    '_REGISTRY': SelectorMap,
+    # opaque token standing for everything registration-related that is not
+    # modelled field by field (_INVERSE_REGISTRY, the wrappers, _ARG_SPEC_CACHE)
+    'REGISTRATION': KVal,
     # ghost: how often each lock is held by the current thread
     'HELD_OPERATIVE_CONFIG_LOCK': KInt,
     'HELD_SINGLETONS_LOCK': KInt,
@@ -50,7 +73,7 @@ world.STATE.update({
 
 # stores that exist in gin/config.py but are only touched through functions
 # that are assumed/bounded (listed so that the C20 inventory is complete)
-UNMODELLED_STORES = ['_REGISTRY', '_INVERSE_REGISTRY', '_ARG_SPEC_CACHE']
+UNMODELLED_STORES = ['_INVERSE_REGISTRY', '_ARG_SPEC_CACHE']
 
 world.LOCKS.clear()
 world.LOCKS.update({'_OPERATIVE_CONFIG_LOCK': 'HELD_OPERATIVE_CONFIG_LOCK',
@@ -62,6 +85,9 @@ world.LOCK_REENTRANT.update({'_OPERATIVE_CONFIG_LOCK': False,
 world.RECORD_CLASSES.clear()
 world.RECORD_CLASSES.update({
     '_ScopeManager': ('config.py', ScopeManager),
+    'SelectorMap': ('selector_map.py', SelectorMap),
+    'ParsedBindingKey': ('config.py', ParsedBindingKey),
+    'Configurable': ('config.py', Configurable),
 })
 
 # tiny accessors executed from their real AST at every use (no contract)
@@ -75,6 +101,11 @@ world.INLINE.update({
     'config.py::enter_interactive_mode',
     'config.py::exit_interactive_mode',
     'config.py::_parse_context',
+    'selector_map.py::SelectorMap.items',
+    'selector_map.py::SelectorMap.__getitem__',
+    'selector_map.py::SelectorMap.__contains__',
+    'selector_map.py::SelectorMap.__len__',
+    'selector_map.py::SelectorMap.get',
 })
 
 world.GLOBAL_VALUES.clear()
